@@ -334,6 +334,10 @@ func (ci *crdIpam) Shutdown() {
 // ConfigurePool init floatingIP pool.
 // #lizard forgives
 func (ci *crdIpam) ConfigurePool(floatIPs []*FloatingIPPool) error {
+	// hold the lock from listing the store until both tables are swapped, otherwise an allocation or release
+	// committed in between is lost from memory
+	ci.cacheLock.Lock()
+	defer ci.cacheLock.Unlock()
 	defer func() {
 		glog.Infof("Configure pool done, %d fip pool, %d unallocated, %d allocated", len(ci.FloatingIPs),
 			len(ci.unallocatedFIPs), len(ci.allocatedFIPs))
@@ -376,8 +380,6 @@ func (ci *crdIpam) ConfigurePool(floatIPs []*FloatingIPPool) error {
 			deletingIPs = append(deletingIPs, ip.Name)
 		}
 	}
-	ci.cacheLock.Lock()
-	defer ci.cacheLock.Unlock()
 	ci.FloatingIPs = floatIPs
 	ci.allocatedFIPs = tmpCacheAllocated
 	if len(deletingIPs) > 0 {
